@@ -672,6 +672,11 @@ def deep_clone(value: Any) -> Any:
     """
     import copy
 
+    # A single PropertyTreeNode (e.g. the Shift a resource refers to) is a reference into the
+    # project tree, not a value: copying it would copy the whole project along with it
+    if hasattr(value, "propertySet"):
+        return value
+
     # For lists, check if they contain PropertyTreeNode objects
     if isinstance(value, list):
         if value and hasattr(value[0], "propertySet"):
